@@ -83,7 +83,16 @@ def oracle(run: runner.Run, oc: Outcome) -> None:
                 if vanished:
                     oc.probes['probe.repeated-for-a-vanished-object'] = oc.probes.get('probe.repeated-for-a-vanished-object', 0) + 1
                 elif len(finals) > 1:
-                    oc.add('C14/repeated', 'twice-in-one-process',
+                    # told apart: the repetition ran on a view older than a write this process had already had
+                    # acknowledged, after the process was asked to exit (its streams are closed then, the echo of the
+                    # write cannot come, and the queued older event is processed once the consistency timeout is over)
+                    t_exit = min([x for x in (oper.t_stop_requested if oper else None,) if x is not None] +
+                                 [e[1] for e in run.sim.trace if e[2] == 'op-cancel' and e[3] == actor], default=None)
+                    again = finals[1]
+                    stale = any(t.uid == uid and t.actor == actor and t.after is not None and t.t < again.t0
+                                and int(t.after['metadata']['resourceVersion']) > int(again.rv or 0) for t in run.transitions)
+                    blind_at_exit = stale and t_exit is not None and again.t0 >= t_exit
+                    oc.add('C14/repeated', 'on-stale-view-while-exiting' if blind_at_exit else 'twice-in-one-process',
                            f"resume handler {hid} completed {len(finals)} times for {uid} in process {actor} "
                            f"(at t={[round(c.t0, 3) for c in finals]}); listings seen: {len(listings)}", uid=uid, hid=hid)
                 if calls and not listed_first:
